@@ -87,7 +87,7 @@ Definition ResInv (r : rresult) : Prop :=
    a little stronger than the bare object invariant of the clone: after the
    private index store (pc 2) and at the private index read (pc >= 3) the
    clone's index is the sorted one.  `pc = 100` (pinned order, flag pending)
-   is not reachable under `rstep1 true`; it is admitted in the invariant
+   is not reachable under `rstep1 true`; it is allowed in the invariant
    when the index already read is the sorted one. *)
 Definition PcInv (sh : rshared) (pc : rpc) : Prop :=
   match pc with
